@@ -274,6 +274,16 @@ def level_scaling(facts, res, geo):
         if len(cells) != 1 or resolve(kids(cells[0])[-1]).get("did") != item.get("did"):
             res.violation(R, tbf.rel(facts.path_of(mm)), mm["qname"], "code-item:%s" % op, c["l"][1],
                           "%s receives the position code of item `%s` but the expansion of item `%s`" % (callee, facts.ntext(item), facts.ntext(kids(cells[0])[-1]) if cells else "?"))
+        # every item is applied: the per-item call is not under a condition and nothing leaves the item loop early
+        loops = [a for a in tbf.ancestors(c) if a.get("k") in ("ForStmt", "WhileStmt", "DoStmt")]
+        if loops:
+            lp = loops[0]
+            conds = [a for a in tbf.ancestors(c) if a.get("k") == "IfStmt" and any(z is a for z in walk(lp))]
+            early = [y for y in walk(lp) if y.get("k") in ("ContinueStmt", "BreakStmt", "ReturnStmt")]
+            if conds or early:
+                w = (conds or early)[0]
+                res.violation(R, tbf.rel(facts.path_of(mm)), mm["qname"], "item-skipped:%s" % op, w["l"][1],
+                              "%s applies %s to an item only under a condition / leaves the item loop early (`%s`): the contribution of some items is dropped for some inputs" % (op, callee, facts.ntext(w["c"][0] if w.get("k") == "IfStmt" else w)[:60]))
         if op == "M2L":
             lv = resolve(args[1])
             if lv.get("did") != lvl["did"]:
